@@ -467,6 +467,190 @@ static int split_drive(int start, int nexec)
 	return 0;
 }
 
+/* -------------------------------------------------------------------------------- C03 streams */
+/* several documents in one buffer, parsed by ONE parser that is resumed at the reported end position (no reset):
+ * the chunked run (a later chunk only after "continue"; after a success the rest of the current chunk is given
+ * next) against the same loop without cuts.  Mirrors Tokener!StreamRun. */
+#define MAXOUT 24
+static int run_stream(json_tokener *tok, const unsigned char *text, int len, const int *cuts, int ncuts, outcome *out)
+{
+	int n = 0, pos = 0, fuel = 64;
+	while (pos < len && fuel-- > 0 && n < MAXOUT)
+	{
+		int stop = len;
+		for (int k = 0; k < ncuts; k++)
+			if (cuts[k] > pos)
+			{
+				stop = cuts[k];
+				break;
+			}
+		json_object *o = call_exact(tok, text + pos, (size_t)(stop - pos));
+		enum json_tokener_error e = json_tokener_get_error(tok);
+		long pe = (long)json_tokener_get_parse_end(tok);
+		outcome r = {e, o, pe > stop - pos ? -1000000 : pos + pe, 0, stop};
+		if (e == json_tokener_continue)
+		{
+			if (stop == len)
+			{
+				out[n++] = r;
+				break;
+			}
+			if (o)
+				json_object_put(o);
+			pos = stop;
+			continue;
+		}
+		out[n++] = r;
+		if (e != json_tokener_success || pe < 0 || pe > stop - pos)
+			break;
+		pos += (int)pe;
+	}
+	return n;
+}
+static void ev_outcomes(const char *key, outcome *o, int n)
+{
+	ev_open_arr(key);
+	for (int i = 0; i < n; i++)
+		ev_outcome(NULL, &o[i]);
+	ev_close_arr();
+}
+static void record_stream(int fl, int depth, const int *cuts, int ncuts, int clean, int ndocs, const int *dstart, const int *dend)
+{
+	outcome got[MAXOUT], ref[MAXOUT];
+	json_tokener *t1 = json_tokener_new_ex(depth);
+	json_tokener_set_flags(t1, flags_of(fl));
+	int ng = run_stream(t1, T, TL, cuts, ncuts, got);
+	json_tokener *t2 = json_tokener_new_ex(depth);
+	json_tokener_set_flags(t2, flags_of(fl));
+	/* the reference sees exactly the bytes the chunked run was given (it may have stopped early on an error) */
+	int given = ng ? got[ng - 1].last_chunk_end : TL;
+	int nr = run_stream(t2, T, given, NULL, 0, ref);
+	ev_begin("stream");
+	ev_int("given", given);
+	ev_bytes("text", T, (size_t)TL);
+	ev_int("fl", fl);
+	ev_int("depth", depth);
+	long long c[16];
+	for (int i = 0; i < ncuts; i++)
+		c[i] = cuts[i];
+	ev_ints("cuts", c, (size_t)ncuts);
+	ev_bool("clean", clean);
+	/* each document parsed alone by a fresh parser (text + NUL) */
+	ev_open_arr("alone");
+	for (int i = 0; i < ndocs; i++)
+	{
+		unsigned char buf[MAXTEXT];
+		int n = dend[i] - dstart[i];
+		memcpy(buf, T + dstart[i], (size_t)n);
+		buf[n] = 0;
+		json_tokener *t3 = json_tokener_new_ex(depth);
+		json_tokener_set_flags(t3, flags_of(fl));
+		outcome a = run_chunked(t3, buf, n + 1, NULL, 0);
+		a.end = dstart[i] + a.end;
+		ev_outcome(NULL, &a);
+		drop(&a);
+		json_tokener_free(t3);
+	}
+	ev_close_arr();
+	ev_outcomes("ref", ref, nr);
+	ev_outcomes("got", got, ng);
+	ev_end();
+	for (int i = 0; i < ng; i++)
+		drop(&got[i]);
+	for (int i = 0; i < nr; i++)
+		drop(&ref[i]);
+	json_tokener_free(t1);
+	json_tokener_free(t2);
+}
+static int stream_drive(int start, int nexec)
+{
+	const char *seed = getenv("VERIF_SEED");
+	uint64_t s0 = seed ? strtoull(seed, 0, 10) : 1;
+	static unsigned char acc[MAXTEXT];
+	for (int x = start; x < nexec; x++)
+	{
+		vh_srand(s0 * 1000003ull + 77 + (uint64_t)x);
+		ev_begin("new");
+		ev_end();
+		int fl = x % 5;
+		int ndocs = 2 + (int)vh_below(4);
+		int dstart[8], dend[8], al = 0;
+		for (int d = 0; d < ndocs; d++)
+		{
+			gen_doc(1 + (int)vh_below(3), 1 + (int)vh_below(8));
+			/* strip the generator's own surrounding white space so that the document boundaries are exact */
+			int a = 0, b = TL;
+			while (a < b && strchr(" \t\n\r", T[a]))
+				a++;
+			while (b > a && strchr(" \t\n\r", T[b - 1]))
+				b--;
+			if (al + (b - a) + 4 > 600)
+			{
+				ndocs = d;
+				break;
+			}
+			/* separator: optional after a self-delimiting value, required otherwise */
+			if (d > 0)
+			{
+				int selfd = strchr("]}\"", acc[al - 1]) != NULL && strchr("[{\"", T[a]) != NULL;
+				int nsep = selfd ? (int)vh_below(3) : 1 + (int)vh_below(2);
+				while (nsep--)
+					acc[al++] = (unsigned char)" \n\t\r"[vh_below(4)];
+			}
+			dstart[d] = al;
+			memcpy(acc + al, T + a, (size_t)(b - a));
+			al += b - a;
+			dend[d] = al;
+		}
+		if (ndocs < 2)
+			continue;
+		memcpy(T, acc, (size_t)al);
+		TL = al;
+		int clean = 1;
+		uint32_t r = vh_below(10);
+		if (r == 0)
+		{
+			mutate();
+			clean = 0;
+		}
+		else if (r < 4)
+			T[TL++] = (unsigned char)" \n\t"[vh_below(3)];
+		T[TL++] = 0; /* the terminating NUL is part of the buffer: tells "nothing pending" from "inside a document" at the end */
+		int cuts[8];
+		record_stream(fl, 32, cuts, 0, clean, clean ? ndocs : 0, dstart, dend);
+		if (TL <= 40)
+			for (int p = 1; p < TL; p++)
+			{
+				cuts[0] = p;
+				record_stream(fl, 32, cuts, 1, clean, 0, dstart, dend);
+			}
+		else
+			for (int i = 0; i < 24; i++)
+			{
+				/* cuts at and next to the document boundaries, and anywhere */
+				int d = (int)vh_below((uint32_t)ndocs);
+				int p = vh_below(2) ? dend[d] + (int)vh_below(3) - 1 : 1 + (int)vh_below((uint32_t)TL - 1);
+				if (p < 1 || p >= TL)
+					continue;
+				cuts[0] = p;
+				record_stream(fl, 32, cuts, 1, clean, 0, dstart, dend);
+			}
+		for (int i = 0; i < 6; i++)
+		{
+			int k = 2 + (int)vh_below(5), n = 0, p = 0;
+			while (n < k && p < TL - 1)
+			{
+				p += 1 + (int)vh_below(i == 0 ? 1 : (uint32_t)(TL / k + 1));
+				if (p < TL)
+					cuts[n++] = p;
+			}
+			if (n)
+				record_stream(fl, 32, cuts, n, clean, 0, dstart, dend);
+		}
+	}
+	return 0;
+}
+
 /* route 4: every text over the alphabet up to length N, extended only while the real parser says
  * continue; every single split of each text */
 static int alpha[32], nalpha, maxn, efl, edepth;
@@ -1026,8 +1210,38 @@ static int inject_drive(int start, int nexec)
 		for (int i = 0; i <= ntok; i++)
 		{
 			int at = i < ntok ? tokv[i].start : OL;
-			const char *cm = vh_below(2) ? "/* c */" : "// c\n";
-			splice(at, 0, cm, (int)strlen(cm));
+			/* block comments whose body is any text without the terminator (stars, slashes, quotes, brackets, line
+			 * ends, "/ *", a run of stars right before the end), the empty one, and line comments */
+			char cm[40];
+			int n = 0;
+			if (vh_below(3))
+			{
+				static const char body[] = " c*/\n\"{[,'\\*";
+				int bl = (int)vh_below(4) * (int)vh_below(4);
+				cm[n++] = '/';
+				cm[n++] = '*';
+				for (int j = 0; j < bl; j++)
+				{
+					char ch = body[vh_below(sizeof body - 1)];
+					if (ch == '/' && cm[n - 1] == '*')
+						ch = ' ';
+					cm[n++] = ch;
+				}
+				cm[n++] = '*';
+				cm[n++] = '/';
+			}
+			else
+			{
+				static const char body[] = " c*/\"{['\\\r";
+				int bl = (int)vh_below(6);
+				cm[n++] = '/';
+				cm[n++] = '/';
+				for (int j = 0; j < bl; j++)
+					cm[n++] = body[vh_below(sizeof body - 1)];
+				cm[n++] = '\n';
+			}
+			cm[n] = 0;
+			splice(at, 0, cm, n);
 			three_runs("comment", at);
 		}
 		for (int i = 0; i < ntok; i++)
@@ -1141,6 +1355,8 @@ int tok_main(int argc, char **argv)
 		return reuse_drive(atoi(argv[1]), atoi(argv[2]));
 	if (argc >= 5 && !strcmp(argv[0], "reuse-enum"))
 		return reuse_enum(argc - 1, argv + 1);
+	if (argc >= 3 && !strcmp(argv[0], "stream-drive"))
+		return stream_drive(atoi(argv[1]), atoi(argv[2]));
 	if (argc >= 3 && !strcmp(argv[0], "split-drive"))
 		return split_drive(atoi(argv[1]), atoi(argv[2]));
 	if (argc >= 5 && !strcmp(argv[0], "split-enum"))
